@@ -2,6 +2,7 @@
 """
 This module provides the Base Property class.
 """
+import operator
 import uuid
 import warnings
 
@@ -781,6 +782,8 @@ class BaseProperty(base.BaseObject):
 
     def _reorder(self, childlist, new_index):
         lst = childlist
+        # Refuse a position that is not an integer before anything is changed.
+        new_index = operator.index(new_index)
         old_index = lst.index(self)
 
         # Take the object out first, then insert it at the new position: this is also
